@@ -79,13 +79,14 @@ macro_rules! src {
     };
 }
 
-/// Source alphabet.  Every source renders its own identity; 0/1/2/6/14 expose registry state;
+/// Source alphabet.  Every source renders its own identity; 0/1/2/6/14 expose registry state; 2 uses the
+/// engine's interior-mutable values (namespace, loop.cycle/changed, a reversed iterator, kwargs);
 /// 3/4/5/7/12/13/15 chain template lookups; 8/9 do not compile (8 does with `<% %>` blocks);
 /// 10/11 fail at run time; 16 needs recursion depth and fuel; 17 calls an unknown method.
 const SOURCES: [&str; 18] = [
-    src!("0[{{ g }}|{{ 'x'|f }}|{{ 'y'|upper }}|{{ v }}|{{ [g, v]|tojson }}]"),
+    src!("0[{{ g }}|{{ 'x'|f }}|{{ 'y'|upper }}|{{ v }}|{{ [g, v]|tojson }}|{{ w }}{{ u }}]"),
     src!("1[{% if 3 is t %}T{% else %}F{% endif %}{% if 3 is odd %}O{% else %}E{% endif %}]"),
-    src!("2[{% for i in range(2) %}{{ i }}{% endfor %}|{{ g }}]"),
+    src!("2[{% set ns = namespace(c=0) %}{% for i in range(3) %}{% set ns.c = ns.c + i %}{{ loop.cycle('a', 'b') }}{% if loop.changed(i // 2) %}!{% endif %}{{ i }}{% endfor %}{{ ns.c }}|{{ g }}|{{ range(3)|reverse|list }}|{{ dict(a=300).a }}]"),
     src!("3<{% include 'a' %}>"),
     src!("4<{% include 'b.html' %}{% include 'c' %}>"),
     src!("{% extends 'a' %}{% block x %}5{{ g }}{% endblock %}"),
@@ -304,31 +305,35 @@ fn include_tpl(syn: u8, name: &str) -> String {
     }
 }
 
-/// fingerprint of a compiled template: its instruction streams (root and blocks: the kind of every
-/// instruction and the text of every raw emit), the initial auto-escape decision and the syntax it
-/// carries — everything load-time configuration is baked into
+/// fingerprint of a compiled template: its instruction streams (root and blocks: every instruction
+/// with its operands, its line and its span — what error locations are made from), the initial
+/// auto-escape decision, the buffer size hint and the syntax it carries — everything load-time
+/// configuration is baked into, and everything a dirty code generator buffer could leave behind
 fn fingerprint(t: &minijinja::Template<'_, '_>) -> String {
-    use minijinja::machinery::{Instruction, Instructions};
+    use minijinja::machinery::Instructions;
     use std::hash::{Hash, Hasher};
     let ct = minijinja::machinery::get_compiled_template(t);
     let mut h = std::collections::hash_map::DefaultHasher::new();
     let dump = |ins: &Instructions<'_>, h: &mut std::collections::hash_map::DefaultHasher| {
         let mut i = 0;
         while let Some(instr) = ins.get(i) {
-            std::mem::discriminant(instr).hash(h);
-            if let Instruction::EmitRaw(s) = instr {
-                s.hash(h);
+            serde_json::to_string(instr).unwrap_or_else(|_| "?".into()).hash(h);
+            ins.get_line(i).hash(h);
+            match ins.get_span(i) {
+                Some(sp) => (1u8, sp.start_line, sp.start_col, sp.start_offset, sp.end_line, sp.end_col, sp.end_offset).hash(h),
+                None => 0u8.hash(h),
             }
             i += 1;
         }
         i.hash(h);
+        ins.name().hash(h);
     };
     dump(&ct.instructions, &mut h);
     for (name, ins) in ct.blocks.iter() {
         name.hash(&mut h);
         dump(ins, &mut h);
     }
-    format!("{:?}|{:?}", ct.initial_auto_escape, ct.syntax_config).hash(&mut h);
+    format!("{:?}|{:?}|{}", ct.initial_auto_escape, ct.syntax_config, ct.buffer_size_hint).hash(&mut h);
     format!("{:010x}", h.finish() & 0xff_ffff_ffff)
 }
 
@@ -345,6 +350,8 @@ struct Spec {
     globals: [Reg; 2],
     /// stickiness oracle: what the real env itself showed earlier (source code + fingerprint)
     pinned: BTreeMap<usize, String>,
+    /// the history started from `Environment::empty()`: no builtins, auto-escape callback "never"
+    base_empty: bool,
 }
 
 struct Live {
@@ -379,6 +386,17 @@ fn set_global(env: &mut Environment<'static>, k: usize, v: Reg) {
     }
 }
 
+/// `add_template_owned` with each combination of borrowed/owned name and source: only when BOTH
+/// are borrowed the template goes to the borrowed tier
+fn add_owned(env: &mut Environment<'static>, n: usize, s: usize, mode: u8) -> Result<(), Error> {
+    match mode {
+        0 => env.add_template_owned(NAMES[n].to_string(), SOURCES[s].to_string()),
+        1 => env.add_template_owned(NAMES[n], SOURCES[s].to_string()),
+        2 => env.add_template_owned(NAMES[n].to_string(), SOURCES[s]),
+        _ => env.add_template_owned(NAMES[n], SOURCES[s]),
+    }
+}
+
 fn new_env() -> Environment<'static> {
     let mut env = Environment::new();
     env.set_recursion_limit(RECURSION_LIMITS[0]);
@@ -386,17 +404,76 @@ fn new_env() -> Environment<'static> {
     env
 }
 
-fn initial_spec() -> Spec {
+fn empty_env() -> Environment<'static> {
+    let mut env = Environment::empty();
+    env.set_recursion_limit(RECURSION_LIMITS[0]);
+    env.set_debug(true);
+    env
+}
+
+/// load-time configuration of `Environment::empty()`: the auto-escape callback never escapes
+const LT_EMPTY: Lt = [0, 0, 0, 0, 2];
+
+/// the names of all filters and tests of an environment, read off its `Debug` output (there is no
+/// public iterator; globals have one)
+fn registry_names(env: &Environment<'static>) -> (Vec<String>, Vec<String>) {
+    let d = format!("{:?}", env);
+    let section = |key: &str| -> Vec<String> {
+        let Some(at) = d.find(key) else { return Vec::new() };
+        let rest = &d[at + key.len()..];
+        let Some(open) = rest.find(|c| c == '{' || c == '[') else { return Vec::new() };
+        let close = rest[open..].find(|c| c == '}' || c == ']').map(|x| x + open).unwrap_or(rest.len());
+        rest[open + 1..close].split(',').map(|x| x.trim().trim_matches('"').to_string()).filter(|x| !x.is_empty()).collect()
+    };
+    (section("filters: "), section("tests: "))
+}
+
+/// `Environment::new()` with everything taken out again that `Environment::empty()` does not have:
+/// has to be the same environment as `Environment::empty()`
+fn stripped_new_env() -> Environment<'static> {
+    let mut env = new_env();
+    let (filters, tests) = registry_names(&env);
+    for f in &filters {
+        env.remove_filter(f);
+    }
+    for t in &tests {
+        env.remove_test(t);
+    }
+    let globals: Vec<String> = env.globals().map(|(k, _)| k.to_string()).collect();
+    for g in &globals {
+        env.remove_global(g);
+    }
+    // the names come from the `Debug` output, which is not an interface: when it no longer yields
+    // them (a builtin is still there), fall back to `empty()` instead of raising a false alarm
+    let stripped = matches!(env.render_str("{{ 1|upper }}{{ 1|tojson }}", ()), Result::Err(ref e) if e.kind() == ErrorKind::UnknownFilter)
+        && matches!(env.render_str("{{ 1 is odd }}", ()), Result::Err(ref e) if e.kind() == ErrorKind::UnknownTest)
+        && !filters.is_empty()
+        && !tests.is_empty();
+    if !stripped {
+        STRIP_FALLBACKS.fetch_add(1, Ordering::Relaxed);
+        return empty_env();
+    }
+    env
+}
+static STRIP_FALLBACKS: AtomicUsize = AtomicUsize::new(0);
+
+fn initial_spec_for(base_empty: bool) -> Spec {
+    let b = if base_empty { Reg::Absent } else { Reg::Builtin };
     Spec {
         contents: BTreeMap::new(),
         loader: 0,
-        lt: LT_DEFAULT,
+        lt: if base_empty { LT_EMPTY } else { LT_DEFAULT },
         rt: RT_DEFAULT,
-        filters: [Reg::Absent, Reg::Builtin],
-        tests: [Reg::Absent, Reg::Builtin],
-        globals: [Reg::Absent, Reg::Builtin],
+        filters: [Reg::Absent, b],
+        tests: [Reg::Absent, b],
+        globals: [Reg::Absent, b],
         pinned: BTreeMap::new(),
+        base_empty,
     }
+}
+
+fn initial_spec() -> Spec {
+    initial_spec_for(false)
 }
 
 /// A freshly built environment with the given value.  Every template is loaded under the load-time
@@ -404,8 +481,16 @@ fn initial_spec() -> Spec {
 /// after the change), then the final configuration is installed.  The tier (borrowed/owned) of
 /// every template and the order of construction are chosen pseudo-randomly: they must not matter.
 fn build_fresh(spec: &Spec, rng: &mut Rng) -> Environment<'static> {
-    let mut env = new_env();
-    let mut cur_lt = LT_DEFAULT;
+    // an environment that started empty is rebuilt from `empty()`, or from `new()` with the
+    // builtins removed again and the auto-escape callback replaced (cur_lt says what is installed)
+    let (mut env, mut cur_lt) = if !spec.base_empty {
+        (new_env(), LT_DEFAULT)
+    } else if rng.chance(1, 2) {
+        (empty_env(), LT_EMPTY)
+    } else {
+        (stripped_new_env(), LT_DEFAULT)
+    };
+    let base = initial_spec_for(spec.base_empty);
     let mut cur_rt = RT_DEFAULT;
     let rt_first = rng.chance(1, 2);
     if rt_first {
@@ -421,21 +506,20 @@ fn build_fresh(spec: &Spec, rng: &mut Rng) -> Environment<'static> {
     }
     for (n, (s, lt)) in items {
         apply_lt(&mut env, &mut cur_lt, &lt);
-        let _ = if rng.chance(1, 2) {
-            env.add_template(NAMES[n], SOURCES[s])
-        } else {
-            env.add_template_owned(NAMES[n].to_string(), SOURCES[s].to_string())
+        let _ = match rng.below(6) {
+            0 | 1 | 2 => env.add_template(NAMES[n], SOURCES[s]),
+            m => add_owned(&mut env, n, s, (m - 3) as u8),
         };
     }
     apply_lt(&mut env, &mut cur_lt, &spec.lt);
     for k in 0..2 {
-        if spec.filters[k] != initial_spec().filters[k] {
+        if spec.filters[k] != base.filters[k] {
             set_filter(&mut env, k, spec.filters[k]);
         }
-        if spec.tests[k] != initial_spec().tests[k] {
+        if spec.tests[k] != base.tests[k] {
             set_test(&mut env, k, spec.tests[k]);
         }
-        if spec.globals[k] != initial_spec().globals[k] {
+        if spec.globals[k] != base.globals[k] {
             set_global(&mut env, k, spec.globals[k]);
         }
     }
@@ -461,11 +545,43 @@ impl serde::Serialize for BadCtx {
     }
 }
 
+/// a context that goes through serde and carries engine values: each of them is parked in the
+/// thread's value-handle registry and taken back (the registry's single-entry fast path, or its
+/// overflow map when the thread holds leaked handles)
+struct EmbedCtx;
+impl serde::Serialize for EmbedCtx {
+    fn serialize<S: serde::Serializer>(&self, s: S) -> Result<S::Ok, S::Error> {
+        use serde::ser::SerializeMap;
+        let mut m = s.serialize_map(None)?;
+        m.serialize_entry("v", &Value::from(vec![Value::from(255), Value::from(256), Value::from("<e>")]))?;
+        m.serialize_entry("u", &Value::from_safe_string("<u>".into()))?;
+        m.end()
+    }
+}
+
+/// a `Serialize` impl that, while it is converted for the engine, hands engine values to a FOREIGN
+/// serializer (logging, a cache key …): every such value is parked under a fresh handle which nobody
+/// ever takes back — the thread's registry keeps `n` leaked entries from then on
+struct LeakyCtx(usize);
+impl serde::Serialize for LeakyCtx {
+    fn serialize<S: serde::Serializer>(&self, s: S) -> Result<S::Ok, S::Error> {
+        for i in 0..self.0 {
+            let _ = serde_json::to_string(&Value::from(vec![Value::from(i as u64), Value::from("leaked")]));
+        }
+        s.serialize_u32(self.0 as u32)
+    }
+}
+
+const NCTX: usize = 5;
+
 fn make_ctx(c: usize) -> Value {
     match c {
         0 => context! { v => 7 },
         1 => Value::from(minijinja::value::Serde(BadCtx)),
-        _ => context! { v => Value::from(vec![Value::from(1), Value::from("<s>")]) },
+        2 => context! { v => Value::from(vec![Value::from(1), Value::from("<s>")]) },
+        // 255/256: the boundary of the small-integer format cache
+        3 => context! { v => 256, w => 255 },
+        _ => Value::from(minijinja::value::Serde(EmbedCtx)),
     }
 }
 
@@ -494,13 +610,31 @@ fn render_outcome(r: Result<String, Error>) -> String {
         Result::Err(e) => {
             // with debug on the error carries the template source for `display_debug_info`
             let dbg = !e.display_debug_info().to_string().is_empty();
-            format!("err:{:?}:{}:{}", e.kind(), e.name().unwrap_or("-"), if dbg { "dbg" } else { "nodbg" })
+            // the location (line and byte range) comes from the spans the code generator attached
+            let loc = format!("{}@{}", e.line().map(|l| l.to_string()).unwrap_or("-".into()), e.range().map(|r| format!("{}..{}", r.start, r.end)).unwrap_or("-".into()));
+            format!("err:{:?}:{}:{}:{}", e.kind(), e.name().unwrap_or("-"), loc, if dbg { "dbg" } else { "nodbg" })
+        }
+    }
+}
+
+/// the ways to render a template handle: all of them must give what `render` gives
+const NVIA: usize = 3;
+fn render_via(t: &minijinja::Template<'_, '_>, ctx: Value, via: usize) -> Result<String, Error> {
+    match via {
+        0 => t.render(ctx),
+        1 => t.render_captured(ctx).map(|c| c.output().to_string()),
+        _ => {
+            let mut buf: Vec<u8> = Vec::new();
+            t.render_captured_to(ctx, &mut buf).map(|_| String::from_utf8_lossy(&buf).into_owned())
         }
     }
 }
 
 /// get_template(n).render(ctx) → (get result code incl. fingerprint, render outcome)
 fn get_render_named(env: &Environment<'static>, name: &str, c: usize) -> (String, String) {
+    get_render_named_via(env, name, c, 0)
+}
+fn get_render_named_via(env: &Environment<'static>, name: &str, c: usize, via: usize) -> (String, String) {
     // the lookup and the render are guarded separately: a render that unwinds (a panicking loader
     // reached through an include) does not hide what the lookup returned
     let t = match guarded(|| env.get_template(name)) {
@@ -510,7 +644,7 @@ fn get_render_named(env: &Environment<'static>, name: &str, c: usize) -> (String
     match t {
         Ok(t) => {
             let g = format!("{}#{}", src_code(t.source()), fingerprint(&t));
-            let r = guarded(|| render_outcome(t.render(make_ctx(c)))).unwrap_or_else(|m| format!("panic:{}", m));
+            let r = guarded(|| render_outcome(render_via(&t, make_ctx(c), via))).unwrap_or_else(|m| format!("panic:{}", m));
             (g, r)
         }
         Result::Err(e) => (err_code(&e), render_outcome(Result::Err(e))),
@@ -518,6 +652,55 @@ fn get_render_named(env: &Environment<'static>, name: &str, c: usize) -> (String
 }
 fn get_render(env: &Environment<'static>, n: usize, c: usize) -> (String, String) {
     get_render_named(env, NAMES[n], c)
+}
+
+/// the ways to render a source given as a string under a name: no way touches the template store
+/// (beyond what the template's own includes look up)
+fn named_str_outcome(env: &Environment<'static>, n: usize, s: usize, k: usize) -> String {
+    guarded(|| {
+        render_outcome(match k {
+            0 => env.render_named_str(NAMES[n], SOURCES[s], make_ctx(0)),
+            1 => env.template_from_named_str(NAMES[n], SOURCES[s]).and_then(|t| t.render(make_ctx(0))),
+            _ => env.template_from_named_str(NAMES[n], SOURCES[s]).and_then(|t| t.render_captured(make_ctx(0)).map(|c| c.output().to_string())),
+        })
+    })
+    .unwrap_or_else(|m| format!("panic:{}", m))
+}
+
+/// `templates()` as an observation of its own: enumerating twice gives the same sequence; every name
+/// comes once; `get_template` finds every listed name with the listed source, and asks no loader for it
+/// (the compilations are compared through the fingerprints of both, against the model)
+fn listing_check(env: &Environment<'static>) -> Option<String> {
+    let first: Vec<(String, String)> = env.templates().map(|(n, t)| (n.to_string(), src_code(t.source()))).collect();
+    let second: Vec<(String, String)> = env.templates().map(|(n, t)| (n.to_string(), src_code(t.source()))).collect();
+    if first != second {
+        return Some(format!("two enumerations differ: {:?} then {:?}", first.iter().map(|x| &x.0).collect::<Vec<_>>(), second.iter().map(|x| &x.0).collect::<Vec<_>>()));
+    }
+    let mut names: Vec<&String> = first.iter().map(|x| &x.0).collect();
+    names.sort();
+    if names.windows(2).any(|w| w[0] == w[1]) {
+        return Some(format!("a name is listed twice: {:?}", names));
+    }
+    REAL_LOG.lock().unwrap().clear();
+    FRESH_LOG.lock().unwrap().clear();
+    let was = LOGGING.swap(true, Ordering::Relaxed);
+    let mut bad = None;
+    for (name, ptr) in &first {
+        match guarded(|| env.get_template(name).map(|t| src_code(t.source()))) {
+            Ok(Ok(p)) if p == *ptr => {}
+            Ok(Ok(_)) => bad = Some(format!("{}: get_template returns another template than templates() lists", name)),
+            Ok(Result::Err(e)) => bad = Some(format!("{}: listed but get_template fails with {}", name, err_code(&e))),
+            Result::Err(_) => bad = Some(format!("{}: listed but get_template panics", name)),
+        }
+    }
+    LOGGING.store(was, Ordering::Relaxed);
+    let asked = REAL_LOG.lock().unwrap().len() + FRESH_LOG.lock().unwrap().len();
+    REAL_LOG.lock().unwrap().clear();
+    FRESH_LOG.lock().unwrap().clear();
+    if bad.is_none() && asked != 0 {
+        bad = Some("the loader was consulted for a listed template".to_string());
+    }
+    bad
 }
 
 fn listing(env: &Environment<'static>) -> String {
@@ -604,8 +787,8 @@ fn registries(env: &Environment<'static>, syn: u8) -> String {
         out.push(code);
     }
     for name in TEST_NAMES {
-        let code = match probe(expr_tpl(syn, &format!("[3 is {}, 4 is {}]|join", name, name))) {
-            Ok(s) => match strip_fmt(&s) {
+        let code = match probe(format!("{}{}", expr_tpl(syn, &format!("3 is {}", name)), expr_tpl(syn, &format!("4 is {}", name)))) {
+            Ok(s) => match s.replace(['\u{ab}', '\u{bb}'], "").as_str() {
                 "truefalse" | "TrueFalse" => "B".to_string(),
                 "truetrue" | "TrueTrue" => "0".to_string(),
                 "falsefalse" | "FalseFalse" => "1".to_string(),
@@ -640,6 +823,7 @@ struct Obs {
     regs: String,
     cfg: String,
     repeat_fail: Option<String>,
+    listing_fail: Option<String>,
 }
 
 impl Obs {
@@ -678,6 +862,7 @@ impl Obs {
 /// Observe an environment without changing it: the listing is read first, lookups and renders go
 /// to a clone (a lookup memoises loader results in the environment it is made on).
 fn observe(env: &Environment<'static>, via_clone: bool) -> Obs {
+    let listing_fail = listing_check(env);
     let was = LOGGING.swap(false, Ordering::Relaxed);
     let listing = listing(env);
     let cloned;
@@ -736,9 +921,10 @@ fn observe(env: &Environment<'static>, via_clone: bool) -> Obs {
     let (lt, rt) = observed_config(o);
     let regs = registries(o, lt[3]);
     LOGGING.store(was, Ordering::Relaxed);
-    Obs { gets, renders, probes, listing, regs, cfg: format!("{}/{}", lt_code(&lt), rt_code(&rt)), repeat_fail }
+    Obs { gets, renders, probes, listing, regs, cfg: format!("{}/{}", lt_code(&lt), rt_code(&rt)), repeat_fail, listing_fail }
 }
 
+const NJUNK: usize = 10;
 const JUNK: [&str; 6] = [
     "{% for x in y %}{% if a %}{{ x|f }}{% else %}",
     "{% set z %}{% for i in [1,2,3] %}{% if i > 1 %}{{ i }}{{ 1 // 0 }}{% endif %}{% endfor %}{% endset %}",
@@ -768,9 +954,14 @@ fn junk(env: &Environment<'static>, k: usize) -> String {
             Ok(_) => "ok".to_string(),
             Result::Err(e) => err_code(&e),
         },
-        _ => {
+        7 => {
             // a serialisation that fails half way, outside of any render
             let v = Value::from(minijinja::value::Serde(BadCtx));
+            format!("{:?}", v.kind())
+        }
+        _ => {
+            // a conversion that leaks 1 / 2 value handles into this thread's registry
+            let v = Value::from(minijinja::value::Serde(LeakyCtx(k - 7)));
             format!("{:?}", v.kind())
         }
     });
@@ -834,6 +1025,8 @@ fn panic_op(env: &Environment<'static>, k: usize) -> String {
         c.set_fuel(None);
         c.set_recursion_limit(60);
         let _ = c.add_template("zz-inc", "inc[{{ boom() }}]");
+        // the operations below must reach their panic also in an environment without builtins
+        c.add_filter("tojson", minijinja::filters::tojson);
         let done = |r: Result<String, Error>| match r {
             Ok(_) => "ok".to_string(),
             Result::Err(e) => format!("err:{:?}", e.kind()),
@@ -919,7 +1112,11 @@ fn thread_probe() -> &'static str {
 
 #[derive(Clone, Debug)]
 enum Op {
-    Add { owned: bool, e: usize, n: usize, s: usize },
+    /// `mode` (owned only): which of name/source are handed over borrowed — 0 both owned, 1 name
+    /// borrowed, 2 source borrowed, 3 both borrowed (= the borrowed arm, through add_template_owned)
+    Add { owned: bool, mode: u8, e: usize, n: usize, s: usize },
+    NamedStr { e: usize, n: usize, s: usize, k: usize },
+    Empty,
     Rm { e: usize, n: usize },
     RmProbe { e: usize, p: usize },
     Cl { e: usize },
@@ -952,7 +1149,10 @@ fn log_str(log: Option<&[usize]>) -> String {
 
 fn op_token(op: &Op, log: Option<&[usize]>) -> String {
     match op {
-        Op::Add { owned, e, n, s } => format!("{}:{}:{}:{}", if *owned { "ao" } else { "ab" }, e, n, s),
+        Op::Add { owned, mode, e, n, s } if *owned && *mode != 0 => format!("ax:{}:{}:{}:{}", e, n, s, mode),
+        Op::Add { owned, e, n, s, .. } => format!("{}:{}:{}:{}", if *owned { "ao" } else { "ab" }, e, n, s),
+        Op::NamedStr { e, n, s, k } => format!("ns:{}:{}:{}:{}:{}", e, n, s, k, log_str(log)),
+        Op::Empty => "em:0".to_string(),
         Op::Rm { e, n } => format!("rm:{}:{}", e, n),
         Op::RmProbe { e, p } => format!("rx:{}:{}", e, p),
         Op::Cl { e } => format!("cl:{}", e),
@@ -983,7 +1183,10 @@ fn parse_op(tok: &str) -> Option<Op> {
     };
     let name = |i: usize| -> Option<usize> { num(i).filter(|n| *n < NN) };
     Some(match f[0] {
-        "ab" | "ao" => Op::Add { owned: f[0] == "ao", e: num(1)?, n: name(2)?, s: num(3).filter(|s| *s < NS)? },
+        "ab" | "ao" => Op::Add { owned: f[0] == "ao", mode: 0, e: num(1)?, n: name(2)?, s: num(3).filter(|s| *s < NS)? },
+        "ax" => Op::Add { owned: true, mode: num(4).filter(|m| (1..=3).contains(m))? as u8, e: num(1)?, n: name(2)?, s: num(3).filter(|s| *s < NS)? },
+        "ns" => Op::NamedStr { e: num(1)?, n: name(2)?, s: num(3).filter(|s| *s < NS)?, k: num(4).filter(|k| *k < 3)? },
+        "em" => Op::Empty,
         "rm" => Op::Rm { e: num(1)?, n: name(2)? },
         "rx" => Op::RmProbe { e: num(1)?, p: num(2).filter(|p| *p < 2)? },
         "cl" => Op::Cl { e: num(1)? },
@@ -1024,6 +1227,10 @@ fn gen_history(rng: &mut Rng, with_threads: bool) -> Vec<Op> {
     let mut ops = Vec::new();
     // flavours: store-heavy, registry-heavy, configuration-heavy, mixed
     let flavour = rng.below(5);
+    // one history in seven starts from `Environment::empty()` instead of `Environment::new()`
+    if rng.chance(1, 7) {
+        ops.push(Op::Empty);
+    }
     // a prelude that makes successful renders likely: a loader and the custom filter/test
     if rng.chance(2, 3) {
         let l = 1 + rng.below(6) as usize;
@@ -1044,10 +1251,10 @@ fn gen_history(rng: &mut Rng, with_threads: bool) -> Vec<Op> {
         let w = rng.below(100);
         //                 add  rm  cl  sl  reg  lt  rt  cn  render hd
         let t: [u64; 10] = match flavour {
-            0 => [26, 34, 37, 46, 49, 56, 60, 63, 90, 93],
-            1 => [12, 17, 19, 24, 54, 58, 62, 66, 90, 93],
-            2 => [20, 24, 26, 31, 34, 56, 68, 72, 90, 93],
-            _ => [20, 27, 30, 38, 48, 57, 63, 67, 90, 93],
+            0 => [26, 34, 37, 46, 49, 56, 60, 63, 88, 93],
+            1 => [12, 17, 19, 24, 54, 58, 62, 66, 88, 93],
+            2 => [20, 24, 26, 31, 34, 56, 68, 72, 88, 93],
+            _ => [20, 27, 30, 38, 48, 57, 63, 67, 88, 93],
         };
         let op = if w < t[0] {
             let g = &gens[e];
@@ -1064,7 +1271,8 @@ fn gen_history(rng: &mut Rng, with_threads: bool) -> Vec<Op> {
                 rng.below(NS as u64) as usize
             };
             gens[e].last.insert(n, s);
-            Op::Add { owned: rng.chance(3, 5), e, n, s }
+            let owned = rng.chance(3, 5);
+            Op::Add { owned, mode: if owned && rng.chance(1, 3) { 1 + rng.below(3) as u8 } else { 0 }, e, n, s }
         } else if w < t[1] {
             if rng.chance(1, 6) {
                 Op::RmProbe { e, p: rng.below(2) as usize }
@@ -1111,15 +1319,32 @@ fn gen_history(rng: &mut Rng, with_threads: bool) -> Vec<Op> {
                 Op::Rm { e, n }
             }
         } else if w < t[8] {
-            let c = if rng.chance(3, 4) { 0 } else { 1 + rng.below(2) as usize };
+            let c = if rng.chance(2, 3) { 0 } else { 1 + rng.below(NCTX as u64 - 1) as usize };
             Op::Render { e, n, c }
         } else if w < t[9] {
-            Op::Handle { e, n }
+            if rng.chance(1, 2) {
+                Op::Handle { e, n }
+            } else {
+                // what is rendered from a string is, half of the time, what is (or was last) stored
+                // under that name, or what the loader would deliver
+                let g = &gens[e];
+                let s = if rng.chance(1, 3) && g.last.contains_key(&n) {
+                    g.last[&n]
+                } else if rng.chance(1, 3) && g.loader != 0 {
+                    match LOADERS[if g.loader == 6 { 7 } else { g.loader }][n] {
+                        Src(s) => s,
+                        _ => rng.below(NS as u64) as usize,
+                    }
+                } else {
+                    rng.below(NS as u64) as usize
+                };
+                Op::NamedStr { e, n, s, k: rng.below(3) as usize }
+            }
         } else {
             if rng.chance(1, 2) {
                 Op::Panic { e, k: rng.below(PANIC_OPS as u64) as usize }
             } else {
-                Op::Junk { e, k: rng.below(8) as usize }
+                Op::Junk { e, k: rng.below(NJUNK as u64) as usize }
             }
         };
         ops.push(op);
@@ -1162,7 +1387,7 @@ fn threads_phase(live: &Live, k: u64, frng: &mut Rng) -> (Option<String>, BTreeM
     let fresh = build_fresh(&live.spec, frng);
     let mut expected: Vec<Vec<(String, String)>> = Vec::new();
     for n in 0..NN {
-        expected.push((0..3).map(|c| get_render(&fresh, n, c)).collect());
+        expected.push((0..NCTX).map(|c| get_render(&fresh, n, c)).collect());
     }
     let env = &live.env;
     let expected = &expected;
@@ -1176,10 +1401,10 @@ fn threads_phase(live: &Live, k: u64, frng: &mut Rng) -> (Option<String>, BTreeM
                         let mut fails = Vec::new();
                         for _ in 0..12 {
                             if rng.chance(1, 3) {
-                                let _ = junk(env, rng.below(8) as usize);
+                                let _ = junk(env, rng.below(NJUNK as u64) as usize);
                             }
                             let n = rng.below(NN as u64) as usize;
-                            let c = rng.below(3) as usize;
+                            let c = rng.below(NCTX as u64) as usize;
                             let got = get_render(env, n, c);
                             if got != expected[n][c] {
                                 fails.push(format!(
@@ -1209,14 +1434,29 @@ fn threads_phase(live: &Live, k: u64, frng: &mut Rng) -> (Option<String>, BTreeM
 
 fn op_target(op: &Op) -> Option<usize> {
     match op {
-        Op::Add { e, .. } | Op::Rm { e, .. } | Op::RmProbe { e, .. } | Op::Cl { e } | Op::Sl { e, .. } | Op::RegAdd { e, .. } | Op::RegRm { e, .. }
+        Op::Empty => Some(0),
+        Op::Add { e, .. } | Op::NamedStr { e, .. } | Op::Rm { e, .. } | Op::RmProbe { e, .. } | Op::Cl { e } | Op::Sl { e, .. } | Op::RegAdd { e, .. } | Op::RegRm { e, .. }
         | Op::SetLt { e, .. } | Op::SetRt { e, .. } | Op::Clone { e } | Op::Render { e, .. } | Op::Handle { e, .. }
         | Op::Junk { e, .. } | Op::Panic { e, .. } | Op::Threads { e, .. } => Some(*e),
         Op::Phase { .. } => None,
     }
 }
 
+/// A history in which a call that is not expected to unwind unwinds anyway (an engine entry point that
+/// consults a panicking loader although it has no business with the loader, say) is reported as a
+/// failing input instead of taking the harness down.
 fn run_history(ops: &[Op], hseed: u64) -> (String, String, String, String) {
+    match guarded(|| run_history_inner(ops, hseed)) {
+        Ok(r) => r,
+        Result::Err(m) => {
+            let case: Vec<String> = ops.iter().map(|o| op_token(o, None)).collect();
+            (case.join(" "), "harness-panic".into(), format!("FAILunwound{{an engine call outside the guarded operations unwound: {}}}", m.replace(['{', '}', '\t', '\n'], " ")), "-".into())
+        }
+    }
+}
+
+fn run_history_inner(ops: &[Op], hseed: u64) -> (String, String, String, String) {
+    LOGGING.store(true, Ordering::Relaxed);
     PHASE.store(0, Ordering::SeqCst);
     let mut envs: Vec<Live> = vec![Live { env: new_env(), spec: initial_spec(), last_obs: None }];
     let mut frng = Rng::new(hseed ^ 0x5151);
@@ -1224,7 +1464,11 @@ fn run_history(ops: &[Op], hseed: u64) -> (String, String, String, String) {
     let mut impl_steps = Vec::new();
     let mut oracle_steps = Vec::new();
     let mut notes: Vec<String> = Vec::new();
-    let mut fresh_on_new_thread = false;
+    // In every other history the reference environments are built and observed on brand-new threads
+    // from the start (and in all histories after the first caught panic): whatever a failing compile,
+    // render or serialisation leaves in the state of THIS thread then shows as a difference, instead
+    // of influencing both sides alike.
+    let mut fresh_on_new_thread = hseed & 1 == 1;
     envs[0].last_obs = Some(observe(&envs[0].env, true));
 
     for op in ops {
@@ -1243,11 +1487,56 @@ fn run_history(ops: &[Op], hseed: u64) -> (String, String, String, String) {
             }
         }
         let opres: String = match op {
-            Op::Add { owned, e, n, s } => {
+            Op::Empty => {
+                // only as the first operation: the history starts from `Environment::empty()`
+                if case_toks.is_empty() {
+                    envs[0] = Live { env: empty_env(), spec: initial_spec_for(true), last_obs: None };
+                    "ok".into()
+                } else {
+                    "late".into()
+                }
+            }
+            Op::NamedStr { e, n, s, k } => {
+                // rendering a source given as a string under a name — whatever is stored under that
+                // name, and whatever the loader knows about it — touches neither the store nor the
+                // loader (apart from the lookups of the template's own includes)
+                let l = &mut envs[*e];
+                let (want, want_log, newc) = {
+                    let (spec, fr, n, s) = (&l.spec, &mut frng, *n, *s);
+                    on_thread(fresh_on_new_thread, move || {
+                        // which lookups the SOURCE causes (its includes/extends/imports) is measured by
+                        // rendering it under a name nobody knows: the name a source is rendered under is
+                        // never itself looked up
+                        let fresh = build_fresh(spec, fr);
+                        FRESH_LOG.lock().unwrap().clear();
+                        let _ = guarded(|| fresh.render_named_str("zz-nobody", SOURCES[s], make_ctx(0)).is_ok());
+                        let want_log: Vec<usize> = std::mem::take(&mut *FRESH_LOG.lock().unwrap());
+                        let was = LOGGING.swap(false, Ordering::Relaxed);
+                        let newc = contents_after(&fresh, &spec.contents, &spec.lt);
+                        let fresh2 = build_fresh(spec, fr);
+                        let want = named_str_outcome(&fresh2, n, s, 0);
+                        LOGGING.store(was, Ordering::Relaxed);
+                        (want, want_log, newc)
+                    })
+                };
+                REAL_LOG.lock().unwrap().clear();
+                let got = named_str_outcome(&l.env, *n, *s, *k);
+                let got_log = std::mem::take(&mut *REAL_LOG.lock().unwrap());
+                if got != want {
+                    fails.push(format!("FAILfresh{{named-str {} source {} via {}: {} vs fresh {}}}", NAMES[*n], s, k, got, want));
+                } else if got_log != want_log {
+                    fails.push(format!("FAILfresh{{named-str {}: loader consulted for {:?}, the source itself causes {:?}}}", NAMES[*n], got_log, want_log));
+                }
+                l.spec.contents = newc;
+                // the model replays the lookups the source causes, not whatever the engine did
+                log_used = Some(want_log);
+                "ns".into()
+            }
+            Op::Add { owned, mode, e, n, s } => {
                 let l = &mut envs[*e];
                 let r = guarded(|| {
                     if *owned {
-                        l.env.add_template_owned(NAMES[*n].to_string(), SOURCES[*s].to_string())
+                        add_owned(&mut l.env, *n, *s, *mode)
                     } else {
                         l.env.add_template(NAMES[*n], SOURCES[*s])
                     }
@@ -1356,21 +1645,30 @@ fn run_history(ops: &[Op], hseed: u64) -> (String, String, String, String) {
                 let l = &mut envs[*e];
                 // the same render on a fresh environment with the pre-state value decides what the
                 // environment must contain afterwards (which lookups get memoised)
-                let fresh = build_fresh(&l.spec, &mut frng);
-                FRESH_LOG.lock().unwrap().clear();
-                let want = get_render(&fresh, *n, *c);
-                let want_log = std::mem::take(&mut *FRESH_LOG.lock().unwrap());
+                let (want, want_log, newc) = {
+                    let (spec, fr, n, c) = (&l.spec, &mut frng, *n, *c);
+                    on_thread(fresh_on_new_thread, move || {
+                        let fresh = build_fresh(spec, fr);
+                        FRESH_LOG.lock().unwrap().clear();
+                        let want = get_render(&fresh, n, c);
+                        let want_log = std::mem::take(&mut *FRESH_LOG.lock().unwrap());
+                        let was = LOGGING.swap(false, Ordering::Relaxed);
+                        let newc = contents_after(&fresh, &spec.contents, &spec.lt);
+                        LOGGING.store(was, Ordering::Relaxed);
+                        (want, want_log, newc)
+                    })
+                };
                 REAL_LOG.lock().unwrap().clear();
-                let got = get_render(&l.env, *n, *c);
+                // the environment under test renders through any of the entry points
+                let via = frng.below(NVIA as u64) as usize;
+                let got = get_render_named_via(&l.env, NAMES[*n], *c, via);
                 let got_log = std::mem::take(&mut *REAL_LOG.lock().unwrap());
                 if got != want {
-                    fails.push(format!("FAILfresh{{render {} ctx{}: {} {} vs fresh {} {}}}", NAMES[*n], c, got.0, got.1, want.0, want.1));
+                    fails.push(format!("FAILfresh{{render {} ctx{} via{}: {} {} vs fresh {} {}}}", NAMES[*n], c, via, got.0, got.1, want.0, want.1));
                 } else if got_log != want_log {
                     fails.push(format!("FAILfresh{{render {}: loader consulted for {:?}, fresh environment {:?}}}", NAMES[*n], got_log, want_log));
                 }
-                let was = LOGGING.swap(false, Ordering::Relaxed);
-                l.spec.contents = contents_after(&fresh, &l.spec.contents, &l.spec.lt);
-                LOGGING.store(was, Ordering::Relaxed);
+                l.spec.contents = newc;
                 log_used = Some(got_log);
                 note = if got.1.starts_with("ok:") { "ok".to_string() } else { got.1.splitn(3, ':').take(2).collect::<Vec<_>>().join(":") };
                 got.0
@@ -1379,10 +1677,19 @@ fn run_history(ops: &[Op], hseed: u64) -> (String, String, String, String) {
                 // a handle obtained from the environment stays what it is while a CLONE of the
                 // environment is modified (the borrow checker forbids modifying the environment itself)
                 let l = &mut envs[*e];
-                let fresh = build_fresh(&l.spec, &mut frng);
-                FRESH_LOG.lock().unwrap().clear();
-                let want = get_render(&fresh, *n, 0);
-                let want_log = std::mem::take(&mut *FRESH_LOG.lock().unwrap());
+                let (want, want_log, newc) = {
+                    let (spec, fr, n) = (&l.spec, &mut frng, *n);
+                    on_thread(fresh_on_new_thread, move || {
+                        let fresh = build_fresh(spec, fr);
+                        FRESH_LOG.lock().unwrap().clear();
+                        let want = get_render(&fresh, n, 0);
+                        let want_log = std::mem::take(&mut *FRESH_LOG.lock().unwrap());
+                        let was = LOGGING.swap(false, Ordering::Relaxed);
+                        let newc = contents_after(&fresh, &spec.contents, &spec.lt);
+                        LOGGING.store(was, Ordering::Relaxed);
+                        (want, want_log, newc)
+                    })
+                };
                 REAL_LOG.lock().unwrap().clear();
                 let env_ref = &l.env;
                 let want_ref = &want;
@@ -1443,9 +1750,7 @@ fn run_history(ops: &[Op], hseed: u64) -> (String, String, String, String) {
                         "panic".to_string()
                     }
                 };
-                let was = LOGGING.swap(false, Ordering::Relaxed);
-                l.spec.contents = contents_after(&fresh, &l.spec.contents, &l.spec.lt);
-                LOGGING.store(was, Ordering::Relaxed);
+                l.spec.contents = newc;
                 res
             }
             Op::Junk { e, k } => {
@@ -1487,6 +1792,9 @@ fn run_history(ops: &[Op], hseed: u64) -> (String, String, String, String) {
             let obs = observe(&l.env, true);
             if let Some(rf) = &obs.repeat_fail {
                 fails.push(format!("FAILrepeat{{env{} {}}}", i, rf));
+            }
+            if let Some(lf) = &obs.listing_fail {
+                fails.push(format!("FAILlisting{{env{} {}}}", i, lf));
             }
             // (2) fresh environment with the same value
             let fobs = if fresh_on_new_thread {
@@ -1702,6 +2010,14 @@ fn fx_consume(env: &Environment<'static>, x: usize, consumer: &str, via: &str, v
     }
 }
 
+fn on_thread<T: Send>(new_thread: bool, f: impl FnOnce() -> T + Send) -> T {
+    if new_thread {
+        spawn_join(f)
+    } else {
+        f()
+    }
+}
+
 fn spawn_join<T: Send>(f: impl FnOnce() -> T + Send) -> T {
     std::thread::scope(|sc| {
         std::thread::Builder::new().stack_size(8 << 20).spawn_scoped(sc, f).unwrap().join().unwrap()
@@ -1845,6 +2161,7 @@ fn main() {
                         .unwrap()
                 });
             }
+            println!("#strip-fallbacks {}", STRIP_FALLBACKS.load(Ordering::Relaxed));
             return;
         }
         Some("one") => {
